@@ -622,7 +622,18 @@ class Evaluator:
         if name == "weekday" and n == 1:
             return guard(d0, lambda args, fn: weekday(args[0]))
         if name == "index" and n == 2:
-            return guard(lambda a: isinstance(a[0], list) and isinstance(a[1], int) and 0 <= a[1] < len(a[0]), lambda args, fn: args[0][args[1]])
+            def index(args, fn):
+                v, i = args
+                if isinstance(v, list) and isinstance(i, int) and not isinstance(i, bool) and 0 <= i < len(v):
+                    return v[i]
+                if isinstance(v, list) and isinstance(i, tuple) and i and i[0] == "enum" and i[1] in ("RangeFrom", "Range", "RangeTo"):
+                    lo = int(i[2].get("start", 0))
+                    hi = int(i[2].get("end", len(v)))
+                    if not 0 <= lo <= hi <= len(v):
+                        raise Unmodelled("%s: slice index %d..%d out of a sequence of %d (a panic path) for these values" % (fn.id, lo, hi, len(v)))
+                    return v[lo:hi]
+                return unmodelled(args, fn)
+            return index
         # iterators over finite sequences, as lists (pure pipelines: laziness does not matter)
         def aslist(v, fn):
             if isinstance(v, list):
@@ -638,6 +649,45 @@ class Evaluator:
             raise Unmodelled("%s: %r is not a finite sequence" % (fn.id, v))
         if full in ("::into_iter", "IntoIterator::into_iter", "Option::into_iter", "Option::iter", "Range::into_iter", "RangeInclusive::into_iter", "Vec::into_iter", "Vec::iter") and n == 1:
             return lambda args, fn: aslist(args[0], fn)
+        if (full.endswith("slice::iter") or full.endswith("VecDeque::iter") or full.endswith("Iter::into_iter")) and n == 1:
+            return lambda args, fn: aslist(args[0], fn)
+        if full.endswith("Iterator::enumerate") and n == 1:
+            return lambda args, fn: [("tuple", [i, x]) for i, x in enumerate(aslist(args[0], fn))]
+        if full.endswith("Iterator::skip") and n == 2:
+            return guard(lambda a: isinstance(a[1], int) and a[1] >= 0, lambda args, fn: aslist(args[0], fn)[args[1]:])
+        if full.endswith("Iterator::take") and n == 2:
+            return guard(lambda a: isinstance(a[1], int) and a[1] >= 0, lambda args, fn: aslist(args[0], fn)[:args[1]])
+        if full.endswith("Iterator::zip") and n == 2:
+            def zip_(args, fn):
+                a, b = args
+                isfrom = lambda v: isinstance(v, tuple) and v and v[0] == "enum" and v[1] == "RangeFrom"
+                if isfrom(a) and not isfrom(b):
+                    lb = aslist(b, fn)
+                    la = [int(a[2]["start"]) + i for i in range(len(lb))]
+                elif isfrom(b) and not isfrom(a):
+                    la = aslist(a, fn)
+                    lb = [int(b[2]["start"]) + i for i in range(len(la))]
+                else:
+                    la, lb = aslist(a, fn), aslist(b, fn)
+                return [("tuple", [x, y]) for x, y in zip(la, lb)]
+            return zip_
+        if full.endswith("Iterator::find_map") and n == 2:
+            def find_map(args, fn):
+                for x in aslist(args[0], fn):
+                    r = self.apply(args[1], [x], fn)
+                    if r is not None:
+                        if not (isinstance(r, tuple) and r and r[0] == "some"):
+                            raise Unmodelled("%s: find_map closure returned %r" % (fn.id, r))
+                        return r
+                return None
+            return guard(lambda a: isclo(a[1]), find_map)
+        if full.endswith("Iterator::find") and n == 2:
+            def find(args, fn):
+                for x in aslist(args[0], fn):
+                    if self.apply(args[1], [x], fn):
+                        return ("some", x)
+                return None
+            return guard(lambda a: isclo(a[1]), find)
         if full.endswith("Iterator::rev") and n == 1:
             return lambda args, fn: list(reversed(aslist(args[0], fn)))
         if full.endswith("Iterator::chain") and n == 2:
@@ -736,7 +786,7 @@ class Evaluator:
                         return ("enum", "Err", {"0": i})
                 return ("enum", "Err", {"0": len(v)})
             return guard(islist, bsearch)
-        if full.endswith("slice::get") and n == 2:
+        if (full.endswith("slice::get") or full.endswith("VecDeque::get") or full.endswith("Vec::get")) and n == 2:
             return guard(islist, lambda args, fn: ("some", args[0][args[1]]) if isinstance(args[1], int) and 0 <= args[1] < len(args[0]) else None)
         if full.endswith("slice::last") and n == 1:
             return guard(islist, lambda args, fn: ("some", args[0][-1]) if args[0] else None)
